@@ -5,7 +5,8 @@
   * a repeated acquire with the same id answers the same lock;
   * while the lock is held the primary's own lock requests are refused and its checkpoint is busy;
   * when a commit of the holder has returned, the primary is at the same position;
-  * a node that is not the current holder cannot move any position by writing;
+  * a node that is not the current holder cannot move any position by writing; the node that
+    was told it holds the lock can commit;
   * after release or expiry the cluster converges again (cluster predicates).
   A replica that commits a WAL transaction under a lock that has expired stops (exit 99, by
   design: a WAL commit cannot be refused to SQLite); that exit is expected, any other is not.
@@ -114,6 +115,16 @@ def check (st : St) (op obs : String) : St × String :=
      | ["ltx"] | ["raw"] =>
        let (cl, v) := ClusterSpec.check st.cl op obs
        ({ st with cl := cl }, v)
+     | ["jrm"] | ["jtr"] =>
+       -- the commit step of a rollback-journal transaction: the node that was told it holds the
+       -- halt lock must be able to commit (a lock that lapsed by expiry is `st.halt = none`)
+       let (cl, v) := ClusterSpec.check st.cl op obs
+       let st' := { st with cl := cl, group := [] }
+       (match st.halt with
+        | some (hr, _, _) =>
+          if hr = k ∧ !obs.startsWith "ok" then (st', s!"FAIL the holder of the granted halt lock could not commit: {obs.take 40}")
+          else (st', v)
+        | none => (st', v))
      | _ =>
        let (cl, v) := ClusterSpec.check st.cl op obs
        ({ st with cl := cl, group := [] }, v))
